@@ -273,6 +273,13 @@ Definition process (fast : bool) (sc : script) (p : posted) (s : state) : state 
 (* ------------------------------------------------------------------------------------------ *)
 (* process_event_queue: literal transcription                                                   *)
 
+(* if not next_queue and inner_queue: next_queue = inner_queue.popleft() *)
+Definition pop_if_empty (rest : list posted) (stack : list (list posted)) : list posted * list (list posted) :=
+  match rest, stack with
+  | [], q :: st => (q, st)
+  | _, _ => (rest, stack)
+  end.
+
 (* while next_queue: ...   (next = next_queue, stack = inner_queue, head = left end) *)
 Fixpoint inner (fast : bool) (sc : script) (fuel : nat) (next : list posted) (stack : list (list posted))
          (s : state) : state * list (list posted) :=
@@ -282,11 +289,7 @@ Fixpoint inner (fast : bool) (sc : script) (fuel : nat) (next : list posted) (st
       match next with
       | [] => (s, stack)
       | event :: rest =>
-          let '(next1, stack1) :=
-            match rest, stack with
-            | [], q :: st => (q, st)            (* if not next_queue and inner_queue: popleft *)
-            | _, _ => (rest, stack)
-            end in
+          let '(next1, stack1) := pop_if_empty rest stack in
           let s1 := process fast sc event s in
           match evq s1 with
           | [] => inner fast sc f next1 stack1 s1
